@@ -77,6 +77,10 @@ pub struct BlockWait {
 pub enum Status {
     /// Registered by its parent; has not reported yet.
     New,
+    /// Registered, but did not show up within the grace period: whatever is to start it has not
+    /// run yet (e.g. the spawn sits in a task nobody has polled). Not waited for; becomes
+    /// `Parked` when it reports.
+    Unstarted,
     Running,
     Parked,
     /// Writer inside salsa, waiting for every snapshot to be dropped (R1).
@@ -155,6 +159,7 @@ pub struct Th {
     pub gated_points: u64,
     /// Scheduler step at which the thread parked at its current point.
     pub parked_at_step: u64,
+    pub registered_at: Instant,
 }
 
 impl Th {
@@ -181,6 +186,7 @@ impl Th {
             is_main: false,
             gated_points: 0,
             parked_at_step: 0,
+            registered_at: Instant::now(),
         }
     }
 }
@@ -206,6 +212,7 @@ pub struct Probes {
     /// A task finished its work while a later task for the same purpose was already done
     /// (its result reaches the main loop late).
     pub task_end_after_later_task_exit: u64,
+    pub spawned_thread_not_started: u64,
 }
 
 pub struct St {
@@ -629,6 +636,19 @@ impl Core {
                 continue;
             }
             poll = (poll * 2).min(Duration::from_millis(2));
+            // A registered thread that does not show up is not going to just because we wait.
+            let now2 = Instant::now();
+            let late: Vec<Tid> = st
+                .threads
+                .iter()
+                .filter(|(_, t)| t.status == Status::New && now2.duration_since(t.registered_at) > Duration::from_millis(1000))
+                .map(|(id, _)| *id)
+                .collect();
+            for id in late {
+                st.threads.get_mut(&id).unwrap().status = Status::Unstarted;
+                st.probes.spawned_thread_not_started += 1;
+                st.log(None, || format!("{id} unstarted"));
+            }
             // Nobody reported for a while: is the running thread asleep in a futex wait that is
             // not one of the simulator's own locks? (Waiting for a child process, the disk or
             // the CPU is not blocking on a peer.)
